@@ -340,33 +340,100 @@ func diffRegs(a, b []uint8) []string {
 // checkRegs: the registers unpacked from GetBytes() equal the model's. Returns the unpacked
 // registers (nil when the byte form is unusable).
 func (w *W) checkRegs(h *hll.HyperLogLog, md *model, det func() map[string]interface{}) []uint8 {
-	b := h.GetBytes()
+	return w.checkRegsBytes("Offer:register-differs", h.GetBytes(), md, det)
+}
+
+// checkRegsBytes is checkRegs on a byte form that was already taken from the counter.
+func (w *W) checkRegsBytes(key string, b []byte, md *model, det func() map[string]interface{}) []uint8 {
 	p, regs, problem := unpack(b)
 	w.c.Count("state_comparisons", 1)
 	if problem != "" || p != int(md.p) {
 		d := det()
 		d["bytes"] = vlib.Hex(b)
-		w.c.Fail("Offer:register-differs", fmt.Sprintf("GetBytes(): %s (precision %d expected %d)", problem, p, md.p), d)
+		w.c.Fail(key, fmt.Sprintf("GetBytes(): %s (precision %d expected %d)", problem, p, md.p), d)
 		return nil
 	}
 	if !bytes.Equal(regs, md.regs) {
 		d := det()
 		d["differences"] = diffRegs(regs, md.regs)
-		w.c.Fail("Offer:register-differs", fmt.Sprintf("p=%d: registers unpacked from GetBytes() differ from the reference model: %v", p, diffRegs(regs, md.regs)), d)
+		w.c.Fail(key, fmt.Sprintf("p=%d: registers unpacked from GetBytes() differ from the reference model: %v", p, diffRegs(regs, md.regs)), d)
 	}
 	return regs
 }
 
 // checkCard: Cardinality() equals the independent evaluation of the estimator on the same
 // registers; for hashed (not crafted) sets of n distinct items it also lies within the bound.
+//
+// Cardinality() is an observation: it may come anywhere in a history, so every call is also
+// held against the state of the same object right after the call (the registers unpacked from
+// GetBytes() are still the ones the estimate was judged on), against the estimate of a counter
+// freshly rebuilt from those bytes, and against a second call (see crossCheck).
 func (w *W) checkCard(h *hll.HyperLogLog, regs []uint8, md *model, n int, hashedSet bool, det func() map[string]interface{}) (lnRatio float64, usable bool) {
+	if regs == nil {
+		return 0, false
+	}
+	got := h.Cardinality()
+	lnRatio, usable = w.judgeCard(got, regs, md, n, hashedSet, det)
+	after := append([]byte(nil), h.GetBytes()...)
+	if _, r2, problem := unpack(after); problem != "" || !bytes.Equal(r2, regs) {
+		d := det()
+		d["bytes_after"] = vlib.Hex(after)
+		w.c.Fail("Cardinality:changes-state", fmt.Sprintf("p=%d: the registers unpacked from GetBytes() right after Cardinality() differ from those right before it %s %v", md.p, problem, diffRegs(r2, regs)), d)
+		return lnRatio, usable
+	}
+	w.crossCheck(h, got, after, 1, det)
+	return lnRatio, usable
+}
+
+// crossCheck: b is the byte form of h taken next to the call that returned got. A counter
+// freshly rebuilt from b has the same estimate and the same bytes; rebuilding does not
+// disturb h; asking h again (after = 1: estimate then bytes, 2: bytes then estimate, 0: not
+// at all) gives the same answers.
+func (w *W) crossCheck(h *hll.HyperLogLog, got uint64, b []byte, after int, det func() map[string]interface{}) {
+	c := w.c
+	var rb *hll.HyperLogLog
+	in := append([]byte(nil), b...)
+	if pv := vlib.Catch(func() { rb = hll.BuildHyperLogLog(in) }); pv != nil || rb == nil {
+		d := det()
+		d["bytes"] = vlib.Hex(b)
+		c.Fail("Build:roundtrip", fmt.Sprintf("BuildHyperLogLog(GetBytes()) failed: %v", pv), d)
+		return
+	}
+	c.Count("estimates_compared_with_rebuilt_counter", 1)
+	if c2 := rb.Cardinality(); c2 != got {
+		d := det()
+		d["bytes"] = vlib.Hex(b)
+		d["cardinality"], d["cardinality_rebuilt"] = got, c2
+		c.Fail("Build:roundtrip", fmt.Sprintf("Cardinality()=%d, but a counter freshly rebuilt from GetBytes() of the same object says %d: the estimate is not a function of the state", got, c2), d)
+	}
+	if b2 := rb.GetBytes(); !bytes.Equal(b2, b) {
+		d := det()
+		d["bytes"], d["rebuilt"] = vlib.Hex(b), vlib.Hex(b2)
+		c.Fail("Build:roundtrip", "bytes of the rebuilt counter differ from the bytes it was built from", d)
+	}
+	for k := 0; k < 2 && after != 0; k++ {
+		if (k == 0) == (after == 1) {
+			if c3 := h.Cardinality(); c3 != got {
+				d := det()
+				d["cardinality_first"], d["cardinality_again"] = got, c3
+				c.Fail("Cardinality:not-repeatable", fmt.Sprintf("Cardinality() returned %d and then %d with no mutation in between", got, c3), d)
+			}
+		} else if b3 := h.GetBytes(); !bytes.Equal(b3, b) {
+			d := det()
+			d["bytes_first"], d["bytes_again"] = vlib.Hex(b), vlib.Hex(b3)
+			c.Fail("GetBytes:not-repeatable", "GetBytes() changed with only Cardinality()/GetBytes()/BuildHyperLogLog(copy) calls in between", d)
+		}
+	}
+}
+
+// judgeCard judges one value returned by Cardinality() against the registers of that moment.
+func (w *W) judgeCard(got uint64, regs []uint8, md *model, n int, hashedSet bool, det func() map[string]interface{}) (lnRatio float64, usable bool) {
 	if regs == nil {
 		return 0, false
 	}
 	c := w.c
 	p := int(md.p)
 	m := float64(len(regs))
-	got := h.Cardinality()
 	e := refEstimate(regs)
 	c.Count("cardinality_evaluations", 1)
 	switch {
@@ -618,7 +685,8 @@ func main() {
 				it.wide = true
 				w.offerBoth(h2, md2, it, &mism, det)
 			}
-			w.checkRegs(h2, md2, det)
+			// checkBuild asked h2 for its estimate before these offers: ask again after them
+			w.checkCard(h2, w.checkRegs(h2, md2, det), md2, 0, false, det)
 			w.checkRegs(h, md, det) // the original is not aliased by the rebuilt one
 		}
 		if n > 0 {
@@ -851,7 +919,7 @@ func main() {
 				it.wide = true
 				w.offerBoth(merged, mm, it, &mism, det)
 			}
-			w.checkRegs(merged, mm, det)
+			w.checkCard(merged, w.checkRegs(merged, mm, det), mm, 0, false, det) // observed before the offers too
 			inputsIntact("offering items to the merge result")
 			if !bytes.Equal(union.GetBytes(), ub) {
 				c.Fail("Merge:modifies-input", "the union counter changed", det())
@@ -861,10 +929,15 @@ func main() {
 		if k >= 2 {
 			x := hll.BuildHyperLogLog(before[0])
 			if x != nil {
-				x.AddAll(parts[1])
 				xm := pm[0].clone()
+				if i%3 != 0 { // two thirds: the receiver was observed before the in-place merge
+					w.observe("Merge:not-union", x, xm, i%len(obsVariants), 0, det)
+				}
+				x.AddAll(parts[1])
 				xm.union(pm[1])
-				w.checkRegs(x, xm, det)
+				w.observe("Merge:not-union", x, xm, (i/3)%len(obsVariants), (i/5)%3, det)
+				x.AddAll(parts[1]) // again: nothing changes
+				w.observe("Merge:not-union", x, xm, (i/7)%len(obsVariants), 0, det)
 				inputsIntact("AddAll")
 			}
 		}
@@ -973,6 +1046,9 @@ func main() {
 		c.DistinctBytes(h.GetBytes())
 	})
 
+	// (6) observations interleaved with mutations, on the same objects -------------------------
+	c.Cases("history", c.N(2600, 52000), w.history)
+
 	sh := int64(c.NShards)
 	c.Floor("state_comparisons", int64(c.N(5200, 104000))/sh, c.Counter("state_comparisons"))
 	c.Floor("cardinality_evaluations", int64(c.N(5200, 104000))/sh, c.Counter("cardinality_evaluations"))
@@ -981,6 +1057,16 @@ func main() {
 	c.Floor("merge_results_compared", int64(c.N(2600, 52000))/sh, c.Counter("merge_results_compared"))
 	c.Floor("orderings_compared", int64(c.N(700, 14000))/sh, c.Counter("orderings_compared"))
 	c.Floor("build_roundtrips", int64(c.N(300, 6000))/sh, c.Counter("build_roundtrips"))
+	c.Floor("history_observations", int64(c.N(3000, 60000))/sh, c.Counter("history_observations"))
+	c.Floor("history_mutations", int64(c.N(3000, 60000))/sh, c.Counter("history_mutations"))
+	c.Floor("observe_mutate_observe", int64(c.N(1200, 24000))/sh, c.Counter("observe_mutate_observe"))
+	for _, kind := range []string{"Offer-grow", "Offer-nogrow", "AddAll-grow", "AddAll-nogrow", "AddAll-rejected"} {
+		c.Floor("observe_only_"+kind+"_observe", int64(c.N(48, 960))/sh, c.Counter("observe_only_"+kind+"_observe"))
+	}
+	for _, kind := range []string{"Merge-result", "Build"} {
+		c.Floor("first_observation_of_"+kind, int64(c.N(160, 3200))/sh, c.Counter("first_observation_of_"+kind))
+	}
+	c.Floor("estimates_compared_with_rebuilt_counter", int64(c.N(8000, 160000))/sh, c.Counter("estimates_compared_with_rebuilt_counter"))
 	c.Floor("median_sets", 20, c.Counter("median_sets"))
 	c.Floor("mismatches_rejected", 3, c.Counter("mismatches_rejected"))
 	c.Finish()
